@@ -7,6 +7,7 @@ import sys, os, ast
 sys.path.insert(0, os.path.dirname(os.path.abspath(__file__)))
 from common import *
 
+OUTPUTS = ['GitCfg.v']
 MODULES = [('DiffDriver', 'diffdriver'), ('MergeDriver', 'mergedriver'), ('DiffTool', 'difftool'), ('MergeTool', 'mergetool')]
 
 def U(n):
